@@ -27,6 +27,7 @@ type c10Arg struct {
 	Seq    bool   `json:"seq"`
 	HoldWeb bool            `json:"holdweb,omitempty"` // the web seed answers only when the explorer lets it (last in the default order)
 	Gate   bool             `json:"gate,omitempty"` // piece writes are held until the explorer releases them
+	Partial []int           `json:"partial,omitempty"` // source "both": the honest peer holds only these pieces (the web seed is the full source)
 	Cfg    map[string]int64 `json:"cfg,omitempty"` // configuration fields set to the given value (C17: small and zero-adjacent limits)
 	Source string `json:"src"` // peer | web | both | rain (a real rain seeding session, MSE negotiated)
 	Adv    bool   `json:"adv"` // a second, misbehaving peer is present (deviation alphabet enabled)
@@ -208,6 +209,13 @@ func mkC10() *Scenario {
 		if arg.Source == "peer" || arg.Source == "both" {
 			p1 = w.NewPeer("p1", "10.0.0.1", 5001)
 			o.Behaviour["p1"] = &PeerBehaviour{Honest: true}
+			if len(arg.Partial) > 0 {
+				have := make([]byte, (g.NumPieces+7)/8)
+				for _, i := range arg.Partial {
+					have[i/8] |= 0x80 >> (i % 8)
+				}
+				o.Behaviour["p1"].Have = have
+			}
 			o.Script = append(o.Script, &ScriptItem{Label: "connect p1", When: func(w *World) bool { return w.Listening() }, Do: func(w *World) {
 				if err := p1.ConnectIn(w.Tor.VerifState().Port, g.InfoHash); err != nil {
 					w.Failf("lab.connect", "connect refused: %v", err)
@@ -444,8 +452,19 @@ func c10IdlePeer(w *World, arg c10Arg, p1 *Peer) {
 	if len(w.Store.PendingOps()) > 0 {
 		return
 	}
+	holds := func(i int) bool {
+		if len(arg.Partial) == 0 {
+			return true
+		}
+		for _, x := range arg.Partial {
+			if x == i {
+				return true
+			}
+		}
+		return false
+	}
 	for i := 0; i < w.G.NumPieces; i++ {
-		if i < len(s.PieceDone) && !s.PieceDone[i] && !s.PieceWriting[i] {
+		if i < len(s.PieceDone) && !s.PieceDone[i] && !s.PieceWriting[i] && holds(i) {
 			w.Failf("C10.idle-peer."+c10Class(arg), "peer p1 is connected, unchoking and idle, piece %d is needed, not being written and not requested from anyone, yet no request is sent (downloads=%d)", i, s.PieceDownloaders)
 			return
 		}
@@ -528,6 +547,19 @@ func TestC10(t *testing.T) {
 	if core.Thorough() {
 		a := c10Arg{Files: []int{8*16384 + 5}, PL: 16384, Single: true, Source: "both", Adv: true, HoldWeb: true, Gate: true}
 		runs = append(runs, Run{Scenario: "c10", Arg: a, Budget: 2, MaxExec: 150000})
+	}
+	// small torrents (3 and 4 pieces of one block) fed by a peer and a held web seed with gated writes, two deviations: a
+	// result of the web seed waits behind a piece write while the peer steals the piece right after it, so the range of
+	// the running download ends exactly where the downloader already is
+	for _, np := range []int{3, 4} {
+		a := c10Arg{Files: []int{np*16384 - 7}, PL: 16384, Single: true, Source: "both", Adv: true, HoldWeb: true, Gate: true}
+		runs = append(runs, Run{Scenario: "c10", Arg: a, Budget: 2, MaxExec: 60000})
+	}
+	// the web seed is the only full source, the honest peer holds two pieces inside the web seed's first range: what the
+	// peer takes cuts the range of the running download, and the rest can only come from the web seed's next range
+	for _, part := range [][]int{{1, 3}, {2, 3}, {1, 2}} {
+		a := c10Arg{Files: []int{5*16384 - 7}, PL: 16384, Single: true, Source: "both", HoldWeb: true, Gate: true, Partial: part}
+		runs = append(runs, Run{Scenario: "c10", Arg: a, Budget: 2, MaxExec: 60000})
 	}
 	// peer + web seed with piece writes held: results of the web seed queue up behind a write while the peer goes on
 	for i, l := range layouts {
